@@ -79,6 +79,8 @@ pub struct RunOut {
     pub digest: u64,
     pub steps: u64,
     pub revisions: u64,
+    /// scheduler choices recorded by a concurrent run (written into the replay file)
+    pub choices: Vec<u16>,
 }
 
 impl RunOut {
